@@ -7,17 +7,17 @@ HOOK_COMMITS = ["e830588", "a6f2056", "d667224"]
 CHECKS = {
  "C01": dict(
   technique="runtime monitors under hostile workloads: panic hook with overflow checks and debug assertions, child-process death and per-call watchdog with isolated re-run, differential poison probes against fresh instances; Miri stage in the thorough tier",
-  text="Exploration: ~2.5e6 (quick) / ~1e8 (thorough) hostile inputs: every truncation and (strided in quick) single-bit corruption of every packet of the four bundled captures and of synthesised connections, every (kind,length,position) TCP option encoding, IP header-length grids in three framings, seeded structural mutation of frames, TLS/HTTP streams and database text; all go through the TCP/HTTP/TLS/unified analyzers with and without filters, the three pools, analyze_pcap, the incremental readers/extractors, parsers, hash functions and every FromStr. Any panic (incl. arithmetic overflow), abnormal process death or confirmed non-return is a violation; every 64 hostile frames, and right after each crafted half-finished connection (also between the probes' own hosts), a set of probe connections on reserved addresses must be analysed exactly as by a fresh instance. Held = none observed.",
+  text="Exploration: ~2.5e6 (quick) / ~1e8 (thorough) hostile inputs: every truncation and (strided in quick) single-bit corruption of every packet of the four bundled captures and of synthesised connections, every (kind,length,position) TCP option encoding, IP header-length grids in three framings, a link-layer grid (every assigned EtherType and a stride over all others, stacked tags, loopback family words, on frames of 0..26 octets and full length), seeded structural mutation of frames, TLS/HTTP streams and database text; all go through the TCP/HTTP/TLS/unified analyzers with and without filters, the three pools, analyze_pcap, the incremental readers/extractors, parsers, hash functions and every FromStr. Any panic (incl. arithmetic overflow), abnormal process death or confirmed non-return is a violation; every 64 hostile frames, and right after each crafted half-finished connection (also between the probes' own hosts), a set of probe connections on reserved addresses must be analysed exactly as by a fresh instance. Held = none observed.",
   note="Non-termination is decided as bounded progress (20 s, then 60 s alone); memory safety only as far as the executed paths and Miri's reduced workload reach.",
   design="6 C01"),
  "C13": dict(
   technique="runtime oracle: synthesis of conforming traffic per bundled signature, packet-level analysis, and a p0f-level conformance predicate for earlier entries; dead signatures of the unchanged tree listed item by item as a known finding",
-  text="Exploration: each of the 199 TCP and 99 HTTP bundled signatures is instantiated as packets/messages (TCP: IPv4/IPv6, hop counts 0..30, admissible MSS/scale values, windows realising the window form, option bytes realising the layout, header bits realising exactly the quirks; 300 variants per signature quick / 6000 thorough; HTTP: 16 variants over HTTP version, optional headers in/out, exact vs substring values, exact vs embedded software token) and analysed at packet level; the best match must be the signature's own label or the label of an earlier entry the traffic conforms to; derived databases (bundled text with the sig lines of 1..3 labels per section commented out) must keep every own-label match of the bundled database. Held = every (signature, variant class) either reaches its label or is one of the 299 listed dead items.",
+  text="Exploration: each of the 199 TCP and 99 HTTP bundled signatures is instantiated as packets/messages (TCP: IPv4/IPv6, hop counts 0..30, admissible MSS/scale values, windows realising the window form, option bytes realising the layout, header bits realising exactly the quirks; 300 variants per signature quick / 6000 thorough; HTTP: 16 variants over HTTP version, optional headers in/out, exact vs substring values, exact vs embedded software token, request method / response status, and -- for responses -- what the client did before: ordinary request, none, unlisted method, request after the response) and analysed at packet level; the best match must be the signature's own label or the label of an earlier entry the traffic conforms to; derived databases (bundled text with the sig lines of 1..3 labels per section commented out) must keep every own-label match of the bundled database. Held = every (signature, variant class) either reaches its label or is one of the 299 listed dead items.",
   note="Conformance predicate and synthesis are the harness' own (c13.rs); a listed item that becomes reachable is noted, not reported.",
   design="6 C13"),
  "C04": dict(
   technique="runtime oracle: reference JA4 computed from the generating ClientHello model (independent SHA-256) + metamorphic permutation/GREASE checks, through four entry points; deviation models for two known findings",
-  text="Exploration: ~1.4e6 (quick) / ~1e8 (thorough) judged hellos: exhaustive grids (legacy versions x ordered supported_versions lists, cipher/extension counts around 99, all two-byte alphanumeric ALPN names, session-id/compression/record-version grid), all n! orders of ciphers and extensions for n<=5/6 plus random orders for long lists, every subset of a GREASE sample at every position of every list; JA4, JA4_r, JA4_o, JA4_ro, a/b/c parts and the separately reported fields are compared with the reference and across parse function, reader, packet analyzer and unified analyzer. Held = only the two listed known-finding deviations observed.",
+  text="Exploration: ~1.4e6 (quick) / ~1e8 (thorough) judged hellos: exhaustive grids (legacy versions x ordered supported_versions lists, cipher/extension counts around 99, all two-byte alphanumeric ALPN names, session-id/compression/record-version grid), repeated cipher-suite and signature-algorithm values, all n! orders of ciphers and extensions for n<=5/6 plus random orders for long lists, every subset of a GREASE sample at every position of every list; JA4, JA4_r, JA4_o, JA4_ro, a/b/c parts and the separately reported fields are compared with the reference and across parse function, reader, packet analyzer and unified analyzer. Held = only the two listed known-finding deviations observed.",
   note="Reference in tlsgen.rs (checked against the FoxIO README example); version and ALPN characters are masked where the published text is ambiguous (see evidence assumptions).",
   design="6 C04"),
  "C05": dict(
@@ -32,7 +32,7 @@ CHECKS = {
   design="6 C06"),
  "C08": dict(
   technique="runtime history monitor: per-segment return values of the incremental reader, of the packet-level TLS analyzer and of a TLS worker pool driven in lock-step, checked against the exactly-once-on-the-completing-segment rule and the one-segment result",
-  text="Exploration: ~1.6e6 (quick) / ~1.9e8 (thorough) judged histories: every 2-partition of hellos from 60 B to 16 KiB, every 3-partition of small hellos, byte-by-byte and random k-partitions, near-limit records, bytes after the record in the same or later segments, and 17 kinds of non-ClientHello records, through TlsClientHelloReader::add_bytes and HuginnNetTls packets (IPv4/IPv6, fresh analyzer every 256 episodes), and segment by segment through a TLS worker pool (1/2/4 workers) with idle gaps of several worker time-outs between segments. Held = every history had exactly one result on the completing segment equal to the single-segment one, and none otherwise.",
+  text="Exploration: ~1.6e6 (quick) / ~1.9e8 (thorough) judged histories: every 2-partition of hellos from 60 B to 16 KiB, every 3-partition of small hellos, byte-by-byte and random k-partitions, near-limit records, bytes after the record in the same or later segments, and 17 kinds of non-ClientHello records, through TlsClientHelloReader::add_bytes and HuginnNetTls packets (IPv4/IPv6, fresh analyzer every 256 episodes), and segment by segment through a TLS worker pool (1/2/4 workers) with idle gaps of several worker time-outs between segments; half of the packet episodes pad short Ethernet frames to the 60-octet minimum or append an FCS-like trailer. Held = every history had exactly one result on the completing segment equal to the single-segment one, and none otherwise.",
   note="A later segment that starts a valid handshake record (second ClientHello) is outside the judged domain; the per-worker stage needs hook H2.",
   design="6 C08"),
  "C16": dict(
@@ -42,32 +42,32 @@ CHECKS = {
   design="6 C16"),
  "C17": dict(
   technique="runtime oracle: independent Akamai S|WU|P|PS reference over generated frame sequences + history check of the incremental extractor over all chunkings",
-  text="Exploration: ~2e6 (quick) / ~7e7 (thorough) judged fingerprints: SETTINGS with known/unknown/duplicate ids, reserved bits, WINDOW_UPDATE variants, PRIORITY frames with exclusive bit and all weights, HEADERS with every pseudo-header order and flag combination, with/without preface, one-shot from bytes and from frames, and incrementally under one chunk, every 2-cut, byte-by-byte, frame-by-frame and random k-cuts (Some exactly once on the chunk completing the first SETTINGS, equal to the one-shot fingerprint so far). Held = no difference.",
+  text="Exploration: ~2e6 (quick) / ~7e7 (thorough) judged fingerprints: SETTINGS with known/unknown/duplicate ids, reserved bits, WINDOW_UPDATE variants, PRIORITY frames with exclusive bit and all weights, HEADERS with every pseudo-header order and flag combination, with/without preface, one-shot from bytes and from frames, and incrementally under one chunk, every 2-cut, byte-by-byte, frame-by-frame and random k-cuts (Some exactly once on the chunk completing the first SETTINGS, equal to the one-shot fingerprint so far); header blocks use size updates and dynamic back-references so that decoder state left by an earlier extraction would show; streams with one oversized frame (16385..20084 octets) are judged differentially (incremental = one-shot of the bytes so far). Held = no difference.",
   note="Reference checked against the published Chrome/Firefox strings; empty or malformed first SETTINGS run crash-only.",
   design="6 C17"),
  "C02": dict(
   technique="runtime differential monitor: find_best_match vs an exhaustive in-order scan using the library's own distance, on the bundled and on generated databases (loaded through the real parser)",
-  text="Exploration: the bundled database plus ~300 (quick) / 36k (thorough) generated p0f databases with wildcards, duplicates and equal-distance competitors; every signature is instantiated over all IP-version / payload-class / HTTP-version fillings (incl. HTTP/2 and HTTP/3), perturbed in one field, and mixed with random observations (~4.3e6 lookups quick). The returned label and signature must be pointer-identical to the first minimum of a full scan and the quality bit-identical; None exactly when nothing accepts. Held = no lookup differed.",
+  text="Exploration: the bundled database plus ~300 (quick) / 36k (thorough) generated p0f databases with wildcards, duplicates, equal-distance competitors, labels without signatures and (1 in 25) a label with 257..416 signatures; sequences of lookups on long-lived matcher objects; every signature is instantiated over all IP-version / payload-class / HTTP-version fillings (incl. HTTP/2 and HTTP/3), perturbed in one field, and mixed with random observations (~4.3e6 lookups quick). The returned label and signature must be pointer-identical to the first minimum of a full scan and the quality bit-identical; None exactly when nothing accepts. Held = no lookup differed.",
   note="The library's calculate_distance/get_quality_score are the given (their semantics are C12's subject). Generators and text printer in siggen.rs.",
   design="6 C02"),
  "C11": dict(
   technique="runtime resource monitor: counting global allocator (thread-local and process-wide counters) read after every packet of long single connections and of over-capacity connection sets",
-  text="Exploration: 15 traffic kinds (unterminated HTTP heads, endless bodies, TLS application data after either hello, huge declared record, random bytes, 1-byte segments, timestamped ACKs, heads of the opposite role, several TLS records per segment, HTTP/2 DATA without HEADERS, pipelined requests, retransmission storm on seen sequence numbers, failing HPACK block that raised the table size followed by DATA) x 2 segment sizes x HTTP/TLS/TCP/unified analyzers and one-worker pools, 2e4 (quick) / 1e6 (thorough) segments each, plus connection sets 1.2..4x the capacity; retained bytes must stay <= 1 MiB per connection (capacity x 1 MiB overall) and the bytes allocated for one packet <= 4 MiB + 8 x its length at every index. Held = limits never crossed; evidence lists the maximum retained KiB per case.",
+  text="Exploration: 16 traffic kinds (unterminated HTTP heads, endless bodies, TLS application data after either hello, huge declared record, random bytes, 1-byte segments, timestamped ACKs, heads of the opposite role, several TLS records per segment, HTTP/2 DATA without HEADERS, pipelined requests, retransmission storm on seen sequence numbers, failing HPACK block that raised the table size followed by DATA) x 2 segment sizes x HTTP/TLS/TCP/unified analyzers and one-worker pools, 2e4 (quick) / 1e6 (thorough) segments each, plus connection sets 1.2..4x the capacity (sequential analyzers) and 8x the capacity inside one-worker HTTP/TLS pools whose queues are far longer than the capacity; retained bytes must stay <= 1 MiB per connection (capacity x 1 MiB overall) and the bytes allocated for one packet <= 4 MiB + 8 x its length at every index. Held = limits never crossed; evidence lists the maximum retained KiB per case.",
   note="Allocation volume is the work proxy; limits are fixed generous constants. Needs hooks H2/H3 for the worker path (allocation counter sampled at the dequeue/processed points).",
   design="6 C11"),
  "C12": dict(
   technique="runtime oracle: field-wise reference model and metamorphic laws evaluated on calculate_distance / get_quality_score, exhaustive over small component domains, deviation models for two known findings",
-  text="Exploration: all TTL form pairs over 0..255 x 0..255, window form pairs on a boundary grid, wscale/olen/mss sweeps, software-string containment cases, controlled header-list edits with 0..14 errors, all small header-list pairs, seeded random signature/instance pairs (~8e7 judged items quick), and both quality tables over 0..2^20 + strided + top 2^16 (quick) or all 2^32 distances (thorough). Laws: instances get distance 0 / quality 1.0, decisive mismatches are rejected, one-field changes never lower and comparable forms add exactly the field's penalty, header error bands, tables non-increasing within [0.05,1.0] and 1.0 only at 0. Held = only the two listed known-finding deviations were observed.",
+  text="Exploration: all TTL form pairs over 0..255 x 0..255, window form pairs on a boundary grid, wscale/olen/mss sweeps, software-string containment cases, controlled header-list edits with 0..14 errors, all small header-list pairs, seeded random signature/instance pairs (~8e7 judged items quick), and both quality tables over 0..2^20 + strided + top 2^16 (quick) or all 2^32 distances (thorough). Laws: instances get distance 0 / quality 1.0 (also at the lookup: find_best_match on a database holding just that signature), decisive mismatches are rejected, one-field changes never lower and comparable forms add exactly the field's penalty, header error bands, tables non-increasing within [0.05,1.0] and 1.0 only at 0. Held = only the two listed known-finding deviations were observed.",
   note="Reference semantics restated from the p0f README and the crate's documented penalties (c12.rs); ambiguous sub-domains are listed in the evidence assumptions and run unjudged.",
   design="6 C12"),
  "C15": dict(
   technique="runtime differential monitor: filtered analyzers/pools vs unfiltered analyzers on the sub-trace admitted by the C14 reference applied to the analyzer's own view of each frame",
-  text="Exploration: 24k (quick) / 600k (thorough) seeded traces mixing connections with odd frames (three framings incl. loopback family variants, IPv4 IHL 0..15, options, total-length lies, IPv6, non-TCP) x 3..6 filter configurations built from the trace's endpoints; filtered TCP/HTTP/TLS analyzers, filtered pools and the unified analyze_pcap must equal the unfiltered analyzer on the admitted sub-trace, and each frame's raw-filter verdict is compared with the reference on the analyzer's view (~2.6e6 judged items quick). Held = no difference.",
+  text="Exploration: 24k (quick) / 600k (thorough) seeded traces mixing connections with odd frames (three framings incl. loopback family variants, IPv4 IHL 0..15, options, total-length lies, IPv6 with and without an extension header, non-TCP) x 3..6 filter configurations built from the trace's endpoints; filtered TCP/HTTP/TLS analyzers, filtered pools and the unified analyze_pcap must equal the unfiltered analyzer on the admitted sub-trace, every result a filtered analyzer emits is checked against the filter on its own endpoints, and each frame's raw-filter verdict is compared with the reference on the analyzer's view (~2.6e6 judged items quick). Held = no difference.",
   note="Needs hooks H1/H2/H3. Uses C14's reference function; frames the analyzer cannot attribute are allowed to pass.",
   design="6 C15"),
  "C20": dict(
   technique="runtime differential monitor: unified analyzer vs the protocol analyzers packet by packet under a shared virtual clock, and configuration-lattice masking check",
-  text="Exploration: 12k (quick) / 300k (thorough) seeded traces with injected hostile frames; every packet that all protocol analyzers accept is compared field by field (raw signature parts, endpoints, labels and quality bit patterns) between HuginnNet::analyze_tcp and the TCP / HTTP / stateless TLS analyzers, for the 16 switch combinations with and without a database (quick rotates half of the non-default configurations per trace). Held = ~3.5e6 judged packet/configuration pairs (quick) without a difference.",
+  text="Exploration: 12k (quick) / 300k (thorough) seeded traces with injected hostile frames and Fast Open SYNs carrying data, connection capacity 256 or (a third of the traces) exactly the number of connections; every packet that all protocol analyzers accept is compared field by field (raw signature parts, endpoints, labels and quality bit patterns) between HuginnNet::analyze_tcp and the TCP / HTTP / stateless TLS analyzers, for the 16 switch combinations with and without a database (quick rotates half of the non-default configurations per trace). Held = ~3.5e6 judged packet/configuration pairs (quick) without a difference.",
   note="Needs hooks H1/H3. Packets rejected by some analyzer are not compared; diagnosis not judged when matching is off.",
   design="6 C20"),
  "C18": dict(
@@ -82,8 +82,8 @@ CHECKS = {
   design="6 C10"),
  "C09": dict(
   technique="runtime differential + history monitor: deliveries of one connection under varied partition / ISN / arrival order vs the in-order baseline, with a coverage invariant evaluated at every report",
-  text="Exploration: 3.2k (quick) / 100k (thorough) seeded HTTP/1.x and HTTP/2 exchanges, (CRLF and bare-LF heads, bodies containing blank lines) each delivered under every (strided in quick) 2-cut, every initial sequence number within one stream length of 2^32, all permutations of up to 5 client segments and random two-direction partitions/orders (~7.7e5 deliveries quick). Each delivery must report exactly the baseline request and response, once, in the right direction, and never before the delivered segments cover the head contiguously; 3 (quick) / 6 (thorough) deliveries per exchange also go frame by frame through the HTTP worker pool (2..8 workers, built directly or by with_config + init_pool, connections between two hosts and on one host) and must give the same request and response. Held = no delivery differed.",
-  note="Needs hooks H1/H2/H3. No retransmissions/overlaps/FIN/RST; SYN and SYN+ACK first as the property presupposes.",
+  text="Exploration: 3.2k (quick) / 100k (thorough) seeded HTTP/1.x and HTTP/2 exchanges, (CRLF and bare-LF heads, bodies containing blank lines) each delivered under every (strided in quick) 2-cut, every initial sequence number within one stream length of 2^32, all permutations of up to 5 client segments, random two-direction partitions/orders, and partitions with retransmitted segments and re-segmented overlaps of the stream's own bytes (~8e5 deliveries quick). Each delivery must report exactly the baseline request and response, once, in the right direction, and never before the delivered segments cover the head contiguously; 3 (quick) / 6 (thorough) deliveries per exchange also go frame by frame through the HTTP worker pool (2..8 workers, built directly or by with_config + init_pool, connections between two hosts and on one host) and must give the same request and response. Held = no delivery differed.",
+  note="Needs hooks H1/H2/H3. No conflicting overlaps, FIN or RST; SYN and SYN+ACK first as the property presupposes.",
   design="6 C09"),
  "C07": dict(
   technique="runtime differential monitor: isolated vs interleaved analysis of scripted connections on the real analyzers (sequential, and free-running through the worker pools with hook-based drain detection), virtual clock, canonical per-frame / per-connection result comparison; Miri stage in the thorough tier",
@@ -97,13 +97,13 @@ CHECKS = {
   design="6 C19"),
  "C03": dict(
   technique="runtime oracle: reference-model monitor on the packet path (model-generated segments, exhaustive per-field sweeps + seeded random headers), deviation models for listed known findings",
-  text="Exploration: ~8e6 (quick) / ~4.7e7 (thorough) generated IPv4/IPv6 segments in Ethernet, raw-IP and loopback framing are analysed by HuginnNetTcp through its private per-packet path and every reported field, the role, the MTU and the link label are compared with a reference computed from the generating model. Component domains named by the property are enumerated completely (all flag bytes, TTLs, header-bit combinations, all 65536 windows per MSS/timestamp/IP-version choice, all option sequences of up to 4 options, every (kind,length) single option). Held = every execution either matched the reference or matched exactly one of the four listed known-finding deviations.",
+  text="Exploration: ~8e6 (quick) / ~4.7e7 (thorough) generated IPv4/IPv6 segments in Ethernet, raw-IP and loopback framing are analysed by HuginnNetTcp through its private per-packet path and every reported field, the role, the MTU and the link label are compared with a reference computed from the generating model. Component domains named by the property are enumerated completely (all flag bytes, TTLs, header-bit combinations, all 65536 windows per MSS/timestamp/IP-version choice, all option sequences of up to 4 options, every (kind,length) single option, timestamp options of non-standard length); a fifth of the Ethernet frames carry link-layer trailer octets after the IP datagram. Held = every execution either matched the reference or matched exactly one of the four listed known-finding deviations.",
   note="Reference model is the harness' tcpref.rs (restates the crate's documented window/TTL rules and the p0f quirk table); trusts the byte-level packet builder; judged domain restrictions are listed in the evidence assumptions.",
   design="6 C03"),
  "C14": dict(
-  technique="runtime oracle: reference-model monitor over product-enumerated and seeded-random filter configurations (differential against an independent boolean function)",
-  text="Exploration: every combination of the listed port/address/subnet sub-filter variants in both modes is built through the public builder API of all four FilterConfig exports and evaluated at crossed boundary ports and addresses (quick ~2e8 judged decisions, thorough all pairs), then seeded random configurations probed at their own constants +-1. Held = no decision differed from the documented rule on the explored points.",
-  note="Trusts the harness' own 40-line reference function (ref_filter) and std's IpAddr parsing; configurations not expressible through the builders are not explored.",
+  technique="runtime oracle: reference-model monitor over product-enumerated and seeded-random filter configurations (differential against an independent boolean function), evaluated on should_process and on the analyzers / worker pools with the filter installed (hook-based drain detection)",
+  text="Exploration: every combination of the listed port/address/subnet sub-filter variants in both modes is built through the public builder API of all four FilterConfig exports and evaluated at crossed boundary ports and addresses (quick ~2e8 judged decisions, thorough all pairs), then seeded random configurations probed at their own constants +-1; filters are put together through six different sequences of builder calls (list / single calls in any order, public port fields) with unsorted and repeated entries. A quarter (quick) / half (thorough) of the random configurations are also installed in the sequential TCP/HTTP/TLS analyzers and in their worker pools (direct and analyzer-built), and one packet per endpoint tuple must yield a result exactly when the documented function admits the tuple. Held = no decision differed from the documented rule on the explored points.",
+  note="Trusts the harness' own 40-line reference function (ref_filter) and std's IpAddr parsing; configurations not expressible through the builders or the public port fields are not explored. The analyzer-level stage needs hooks H2/H3.",
   design="6 C14"),
 }
 
